@@ -44,6 +44,7 @@ def proj_life(op, res):
     return "" if op.startswith("mkcoll") else res
 
 
+RBN = "_sync,_sys,usr,u2,$document,$document.revid"
 ROW = ["row", "row.v", "row.cas", "row.exp", "row.json", "row.x", "row.tomb", "row.rev"]
 
 PROPS = {
@@ -68,8 +69,8 @@ PROPS = {
                 what="every live feed event after every operation, against the stored mutation"),
     "C09": dict(modules=["Rosmar.Properties.C09", "Rosmar.Properties.Sched"], slices=[FEEDS, FEEDSD, MULTI], proj=P(rb=ROW, ev="*", results=False),
                 what="dump feeds (backfill snapshots) from several start CAS values, against the stored rows"),
-    "C10": dict(modules=["Rosmar.Properties.C10"], slices=[KVD, CLOCKD],
-                proj=P(rb=ROW, results=True, ops={"restart", "lastcas"}),
+    "C10": dict(modules=["Rosmar.Properties.C10"], slices=[KVD, CLOCKD, EXPIRYD],
+                proj=P(rb=ROW, results=True, ops={"restart", "lastcas", "expstate"}),
                 what="on-disk histories with close/reopen in-process (restart) compared with the model; and fault enumeration: a child process "
                      "is SIGKILLed at instrumentation points (txn.begin, cas.afterwrite, txn.precommit, txn.committed, post.before, ...) and a "
                      "fresh process reopens and reads everything back"),
@@ -92,6 +93,8 @@ PROPS = {
     "C18": dict(modules=["Rosmar.Properties.C18"], slices=[SUBDOC, SUBDOCD], proj=V.proj_all,
                 what="WriteSubDoc / SubdocInsert / GetSubDocRaw over object documents, dotted paths of every kind, CAS classes"),
     "C15": dict(modules=["Rosmar.Properties.C15"], slices=[RESUME, RESUMED],
+                closing=["stopfeed fr", "rb c0 k0 n=" + RBN, "rb c0 k1 n=" + RBN, "rb c0 k2 n=" + RBN,
+                         "feed fr c0 bf=resume prefix=cp dump=1", "drain fr"],
                 proj=P(rb=ROW, ev="*", results=True, ops={"feed", "stopfeed"}),
                 what="a checkpointed resume-mode feed stopped (terminator) and restarted (live and dump runs) between batches of writes; the "
                      "checkpoint document read after every stop; the union of all runs against the final documents"),
@@ -100,6 +103,8 @@ PROPS = {
                      "collection drops (through any handle), handle closes, bucket deletion; after every event the done state of every feed, "
                      "callbacks after done, and probes that surviving feeds still receive events"),
     "C12": dict(modules=["Rosmar.Properties.C12"], slices=[VIEW, VIEWD, VIEWM, VIEWMD],
+                closing=[l for c in ("c0", "c1") for l in (["putddoc %s ddz v.z0=0: v.z1=1: v.z2=2: v.z3=3:" % c] +
+                                                             ["view %s ddz z%d" % (c, m) for m in range(4)])],
                 proj=P(rb=["row", "row.v", "row.cas", "row.json", "row.x", "row.tomb"], results=True, ops={"view", "putddoc", "delddoc", "ddocs", "lastcas"}),
                 what="design documents put / replaced / deleted on two collections; write histories through every entry point (with and "
                      "without WithMeta writes), purges, reopening; view queries (View and ViewQuery) over a family of 4 JavaScript map "
@@ -154,7 +159,7 @@ def extra_C20(tier, seed, log):
     return shutdown.run(tier, seed, log)
 
 
-EXTRA = {"C20": extra_C20, "C10": extra_C10, "C14": extra_C14, "C03": extra_C03, "C13": extra_sched("C13"), "C08": extra_sched("C08"), "C09": extra_sched("C09"), "C15": extra_sched("C15")}
+EXTRA = {"C20": extra_C20, "C10": extra_C10, "C14": extra_C14, "C03": extra_C03, "C13": extra_sched("C13"), "C08": extra_sched("C08"), "C09": extra_sched("C09"), "C15": extra_sched("C15"), "C16": extra_sched("C16")}
 
 
 def load_lines(path):
@@ -285,6 +290,15 @@ def decide(pid, tier, seed, t0):
             line = first_divergence(small, impl, model, cfg["proj"])
             rej = mon(small, impl) if mon else []
             rej = [x for x in rej if signature(pid, x["rule"], small, x["line"]) not in known_sigs]
+            if not rej and mon and cfg.get("closing"):
+                # the property speaks about the end of a history (e.g. "taken together, its runs deliver..."): complete the shrunk
+                # history the way the generator ends its programs, then ask the monitor again
+                closed = (small[:-1] if small and small[-1] == "end" else small) + cfg["closing"] + ["end"]
+                cimpl, _ = V.run_impl_replay(closed, "closed")
+                crej = [x for x in mon(closed, cimpl) if signature(pid, x["rule"], closed, x["line"]) not in known_sigs]
+                if crej:
+                    small, impl, rej = closed, cimpl, crej
+                    line = None
             detail = {"line": line, "op": small[line] if line is not None else None,
                       "observed": impl[line] if line is not None and line < len(impl) else None,
                       "expected_by_model": model[line] if line is not None and line < len(model) else None,
@@ -307,8 +321,15 @@ def decide(pid, tier, seed, t0):
     for v in extra_viol:
         if v.get("signature") in known_sigs:
             continue
-        path = replay_file(pid, v.get("kind", "schedule"), v.get("ops", []), v)
+        path = replay_file(pid, v.get("kind", "schedule"), v.get("ops", []), {k: x for k, x in v.items() if k not in ("kind", "ops", "property")})
         violations.append((v.get("kind", "schedule"), path, v.get("msg", ""), v.get("no_failing_input", False)))
+
+    # a broken tie / proof for which some part of the search did find a failing input is reported with that input
+    if any(not nofail for _, _, _, nofail in violations):
+        dropped = [v for v in violations if v[3]]
+        violations = [v for v in violations if not v[3]]
+        if dropped:
+            log.setdefault("also_broken", []).extend("%s: %s" % (k, m) for k, _, m, _ in dropped)
 
     # (6) known findings: replay each witness; print while it still fails
     for k in open_findings:
@@ -351,7 +372,7 @@ def decide(pid, tier, seed, t0):
                         "inputs are well-formed in the sense of DESIGN.md section 7 (WF)"],
     }
     evidence["coverage"].update(extra_cov)
-    evidence["coverage"].update({k: v for k, v in log.items() if k in ("prepare_s", "leanchecker", "build_errors", "known_findings_not_reproduced", "known_finding_theorems_not_checking")})
+    evidence["coverage"].update({k: v for k, v in log.items() if k in ("prepare_s", "leanchecker", "build_errors", "known_findings_not_reproduced", "known_finding_theorems_not_checking", "also_broken")})
     V.write_json(os.path.join(V.VERIF, "evidence", pid + ".json"), evidence)
     for kind, path, msg, nofail in violations:
         print("VIOLATION property=%s replay=%s%s" % (pid, path, " no-failing-input-found" if nofail else ""))
